@@ -242,6 +242,9 @@ def check_nested(ctx: Ctx, rule: str, nf):
 def run(ctx: Ctx):
     _run(ctx)
     ctx.rule("R03.c", "missing_values stores every requested quantity at its requested slot (the jax return array is built from the slot numbers)", floor=4)
+    from .c18 import check_missing_values_passed_on
+
+    check_missing_values_passed_on(ctx, "R03.c", shorts=("cli/gotran2py.py",))
     from .c13 import missing_values_discipline
 
     missing_values_discipline(ctx, "R03.c")
